@@ -552,6 +552,11 @@ class Interp:
     def builtin_method(self, f, args, kwargs):
         slf = getattr(f, '__self__', None)
         name = getattr(f, '__name__', '')
+        if isinstance(slf, str) and name == 'join' and len(args) == 1 and not isinstance(args[0], (str, list, tuple)):
+            items = list(self.iterate(args[0]))         # a generator: look at what it produces
+            if any(isinstance(i, Sym) for i in items):
+                return models.str_join(slf, items)
+            return slf.join(items)
         if isinstance(slf, str) and (self.symarg(args)):
             m = models.STR_METHODS.get(name)
             if m is not None:
